@@ -29,7 +29,7 @@ def gen_meta(rng, box):
     alpha = hostile_alphabet(box)
     version = rng.choice([1, 1, 2, 3])
     single = rng.random() < 0.25
-    name = rng.choice(alpha)
+    name = rng.choice(alpha) if rng.random() < 0.65 else rng.choice(["ok", "sub", "pack"])
     files = []
     for i in range(1 if single else rng.randrange(1, 4)):
         depth = rng.choice([0, 1, 2])
@@ -155,7 +155,7 @@ def run(tier, seed, replay=None):
     run = Run("C19", tier, seed, RULE)
     drv = Driver()
     seeds = [replay["case"]["case_seed"]] if replay else \
-        [run.rng.randrange(10 ** 9) for _ in range(150 if tier == "quick" else 1500)]
+        [run.rng.randrange(10 ** 9) for _ in range(300 if tier == "quick" else 3000)]
     for s in seeds:
         guarded(run, {"case_seed": s}, run_case, run, drv, s)
     for (case, got), req, out in drv.run():
